@@ -898,6 +898,9 @@ func (u *Unit) callByContract(c *ast.CallExpr, fi *FuncInfo, blk *Block, recv *V
 	if blk.Trusted != "" {
 		u.D.Trust("contract of " + fi.Key + " is trusted: " + blk.Trusted)
 	}
+	if len(vals) > 0 {
+		u.registerReturnedLit(env, fi, blk, vals[0].Term, scope)
+	}
 	return ret(env, vals...)
 }
 
